@@ -4,10 +4,8 @@
    predicate: [verdicts]); all theorems quantify over the whole table, so "the
    k-th invocation raises" is covered for every k at once.
 
-   Uses the preservation theorems of Invariant.v (WFw is kept by every step the
-   owner of that file has closed) and closes the remaining crash/error exits
-   itself: set_data, rename and remove return the world itself on every error
-   exit. *)
+   Uses the preservation theorem of Invariant.v (WFw is kept by every step).
+   set_data, rename and remove return the world itself on every error exit. *)
 From Coq Require Import List ZArith Bool Arith Lia Permutation.
 From NT Require Import Sx Rose ListFacts RoseFacts Surgery SurgeryFacts Machine WF MachineFacts
   PreserveSteps PreserveOps PreserveSort PreserveMore Invariant Effects RefusalC13.
@@ -30,15 +28,10 @@ Lemma keeps_eq_remove w ti n keep wc : keeps_eq w (op_remove w ti n keep wc).
 Proof. unfold keeps_eq, op_remove. brk; fin. Qed.
 
 (* every error exit of every operation - in particular every escaped callback
-   exception - leaves a well-formed world *)
+   exception - leaves a well-formed world: an instance of the step theorem of
+   Invariant.v (WFw is kept by EVERY step, whatever its result) *)
 Theorem error_WFw w o e : WFw w -> fst (step w o) = Err e -> WFw (snd (step w o)).
-Proof.
-  intros H E. destruct (covered o) eqn:C; [now apply WFw_step_partial|].
-  destruct o; try discriminate C; cbn [step] in *.
-  - assert (K := keeps_eq_remove w ti n keep with_clones). unfold keeps_eq in K. rewrite E in K. now rewrite K.
-  - assert (K := keeps_eq_set_data w ti n d explicit with_clones). unfold keeps_eq in K. rewrite E in K. now rewrite K.
-  - assert (K := keeps_eq_rename w ti n d). unfold keeps_eq in K. rewrite E in K. now rewrite K.
-Qed.
+Proof. intros H _. now apply WFw_step. Qed.
 
 Corollary callback_fault_WFw w o : WFw w -> fst (step w o) = Err ECrash -> WFw (snd (step w o)).
 Proof. intros H E. now apply (error_WFw w o ECrash). Qed.
@@ -179,8 +172,9 @@ Theorem add_tree_source_pure w ti p sti b deep tj : tj <> ti ->
 Proof.
   intros Hj. unfold op_add_tree. destruct (get_tree w ti) as [t|]; [|reflexivity]. destruct (get_tree w sti) as [st|]; [|reflexivity].
   repeat match goal with |- context [if ?c then (Err _, w) else _] => destruct c; [reflexivity|] end.
-  match goal with |- context [add_nodes w ti p sti ?o b ?d []] => assert (X := add_nodes_other o w ti p sti b d [] tj Hj);
-    destruct (add_nodes w ti p sti o b d []) as [[r|e] w'] end; exact X.
+  cbv zeta.
+  match goal with |- context [add_nodes w ti p sti ?o ?bb ?d []] => assert (X := add_nodes_other o w ti p sti bb d [] tj Hj);
+    destruct (add_nodes w ti p sti o bb d []) as [[r|e] w'] end; exact X.
 Qed.
 
 Theorem copy_to_source_pure w sti src ti target add_self b deep tj : tj <> ti ->
